@@ -1,6 +1,7 @@
 import CedarVerif.Cedar.SymCC
 import CedarVerif.Cedar.SymCompile
 import CedarVerif.Lemmas.SymCompile
+import CedarVerif.Lemmas.SymCType
 import CedarVerif.Thm.C01
 /-
 C18 — Symbolic compilation agrees with evaluation on concrete (literal) environments.
@@ -467,6 +468,43 @@ theorem compile_correct_fragment2_conformant (req : Request) (es : Entities) (se
   obtain ⟨ctxT, h, hok⟩ := ctxTermOf_ctxOK req.context attrs hconf
   exact ⟨ctxT, h, fun e hf t hc => compile_correct_fragment2 req es senv etys ctxT (fun _ => hok) e hf t hc⟩
 
+/-! ### WHEN the compiler rejects: its own typing discipline `ctype` (Lemmas/SymCType.lean) -/
+
+/-- soundness of the compiler's typing discipline: an accepted `SFrag2` expression compiles to a term whose type is the
+    one `ctype` computes (always an `option` type). -/
+theorem compile_typeOf_ctype (req : Request) (es : Entities) (senv : SlotEnv)
+    (etys : List (EntityType × Option (List String))) (ctxT : Term)
+    (hctx : ctxT.typeOf.isRecordType = true → CtxOK req.context ctxT)
+    (e : Expr) (hf : SFrag2 e) (t : Term) (hc : compile (litEnv2 req etys ctxT) e = .ok t) :
+    ctype req es senv (litEnv2 req etys ctxT) e = .ok t.typeOf := by
+  rw [← ctype_spec req es senv etys ctxT hctx hf, hc]; rfl
+
+/-- C18, ill-typed inputs: on the literal environment of `req` the compiler's outcome class on an `SFrag2` expression
+    is decided by `ctype` — the mirror of the checks compiler.rs makes (types of the operands of `! - == < <= + - *`,
+    `reducible_eq`, record-typedness and declared attributes for `.`/`has`, `option bool` guards and operands of
+    `if && ||`, equal branch types), where `if / && / ||` skip the checks on the operand a CONSTANT guard discards
+    (the guard is constant exactly when `evaluate` gives a boolean):
+      * it returns the error `err` (`TypeError`, `NoSuchAttribute`; or the model-only `.outside` for `.`/`has` on an
+        entity-typed term) iff `ctype` gives that error;
+      * it accepts iff `ctype` gives a type. -/
+theorem compile_rejects_iff (req : Request) (es : Entities) (senv : SlotEnv)
+    (etys : List (EntityType × Option (List String))) (ctxT : Term)
+    (hctx : ctxT.typeOf.isRecordType = true → CtxOK req.context ctxT) (e : Expr) (hf : SFrag2 e) :
+    (∀ err, compile (litEnv2 req etys ctxT) e = .error err ↔ ctype req es senv (litEnv2 req etys ctxT) e = .error err) ∧
+    ((∃ t, compile (litEnv2 req etys ctxT) e = .ok t) ↔ ∃ ty, ctype req es senv (litEnv2 req etys ctxT) e = .ok ty) := by
+  have h := ctype_spec req es senv etys ctxT hctx hf
+  cases hc : compile (litEnv2 req etys ctxT) e with
+  | error e0 =>
+    rw [hc] at h
+    simp only [resTy] at h
+    rw [← h]
+    exact ⟨fun err => by simp, by simp⟩
+  | ok t =>
+    rw [hc] at h
+    simp only [resTy] at h
+    rw [← h]
+    exact ⟨fun err => by simp, by simp⟩
+
 /-- the first fragment (no `context`): corollary of `compile_correct_fragment2` on the context-less environment `litEnv`
     (its context slot is a non-record dummy, so no hypothesis about the context is needed).  Ill-typed inputs: see the
     examples below — a type error of `evaluate` shows up either as the compiler REJECTING (`.error .typeError`, excluded
@@ -597,6 +635,13 @@ instance decEqCResult : DecidableEq CResult := fun a b =>
   | .ok _, .error _ => isFalse (fun h => by cases h)
   | .error _, .ok _ => isFalse (fun h => by cases h)
 
+instance decEqCTyRes : DecidableEq (Except CErr TermType) := fun a b =>
+  match a, b with
+  | .ok x, .ok y => if h : x = y then isTrue (by rw [h]) else isFalse (fun h' => h (by injection h'))
+  | .error x, .error y => if h : x = y then isTrue (by rw [h]) else isFalse (fun h' => h (by injection h'))
+  | .ok _, .error _ => isFalse (fun h => by cases h)
+  | .error _, .ok _ => isFalse (fun h => by cases h)
+
 def exEtys : List (EntityType × Option (List String)) := [("User", none), ("Doc", none), ("Action", some ["view"])]
 
 /-- `if principal == User::"a" then 1 + 2 < 4 else !(true && false)` -/
@@ -693,6 +738,30 @@ example : compile (litEnv2 exReq2 exEtys exCtxT) (.hasAttr (.var .context) "zz")
 example : compile (litEnv2 exReq2 exEtys exCtxT) (.getAttr (.var .context) "zz") = .error .noSuchAttr := by decide +kernel
 -- attribute access on an entity-typed term is outside the model
 example : compile (litEnv2 exReq2 exEtys exCtxT) (.getAttr (.var .principal) "name") = .error .outside := by decide +kernel
+
+-- the two rejection examples above FOLLOW from `compile_rejects_iff` by computing `ctype` (no compilation):
+-- `false && (1 + true)`: `ctype` accepts (the constant guard `false` discards the ill-typed operand) …
+example : ctype exReq exEs [] (litEnv exReq exEtys)
+    (.and (.lit (.bool false)) (.binaryApp .add (.lit (.int 1)) (.lit (.bool true)))) = .ok (.option .bool) := by
+  decide +kernel
+example : ∃ t, compile (litEnv exReq exEtys)
+    (.and (.lit (.bool false)) (.binaryApp .add (.lit (.int 1)) (.lit (.bool true)))) = .ok t :=
+  ((compile_rejects_iff exReq exEs [] exEtys (.prim (.bool false))
+    (by simp [Term.typeOf, TermPrim.typeOf, TermType.isRecordType]) _
+    (inFrag2_sound _ (by decide +kernel))).2).mpr ⟨.option .bool, by decide +kernel⟩
+-- … `(MAX + 1) + true`: `ctype` rejects (the overflowing operand is not a CONSTANT guard position; `+` checks both types)
+example : compile (litEnv exReq exEtys)
+    (.binaryApp .add (.binaryApp .add (.lit (.int 9223372036854775807)) (.lit (.int 1))) (.lit (.bool true)))
+    = .error .typeError :=
+  ((compile_rejects_iff exReq exEs [] exEtys (.prim (.bool false))
+    (by simp [Term.typeOf, TermPrim.typeOf, TermType.isRecordType]) _
+    (inFrag2_sound _ (by decide +kernel))).1 _).mpr (by decide +kernel)
+-- `context.zz` (undeclared): `NoSuchAttribute`;  `principal.name`: outside the model — both read off `ctype`
+example : ctype exReq2 exEs [] (litEnv2 exReq2 exEtys exCtxT) (.getAttr (.var .context) "zz") = .error .noSuchAttr := by
+  decide +kernel
+example : ctype exReq2 exEs [] (litEnv2 exReq2 exEtys exCtxT) (.getAttr (.var .principal) "name") = .error .outside := by
+  decide +kernel
+example : ctype exReq2 exEs [] (litEnv2 exReq2 exEtys exCtxT) exCtxE = .ok (.option .bool) := by decide +kernel
 
 /-- permit when exIf;  forbid when exOvf (errors) -/
 def pIf : Policy := { id := "q0", effect := .permit, condition := exIf, env := [] }
